@@ -8,6 +8,7 @@ mod dynval;
 mod errors;
 mod negotiate;
 mod orders;
+mod plain;
 mod recser;
 mod safelong;
 mod serdewrap;
@@ -23,6 +24,7 @@ fn main() {
         "codegen-safe" => codegen::codegen_safe(rest),
         "negotiate" => negotiate::negotiate(rest),
         "uri" => uri::uri(rest),
+        "plain" => plain::plain(rest),
         "errors" => errors::errors(rest),
         "orders" => orders::orders(rest),
         "serde" => serdewrap::serdewrap(rest),
